@@ -151,7 +151,7 @@ def run(F, R, tier):
     seen = set()
     for v in res["viol"]:
         rule, key, detail, line, facts = v
-        if rule == "filter-result" and facts.get("v:f.pattern") in ("None", "End") and facts.get("some:f.action") is False:
+        if rule == "filter-result" and facts.get("v:$:Filter.pattern") in ("None", "End") and facts.get("some:$:Filter.action") is False:
             # excluded by the parser (parser-contract rules above)
             continue
         if (rule, key) in seen:
